@@ -117,13 +117,7 @@ Definition prim_value (k : IntKind) (v : Value) : Outcome Z :=
   | _ => Err
   end.
 
-(* KeyLookupSerializer: only strings (below Option / newtype layers) can be looked up *)
-Fixpoint key_name (k : Value) : option bytes :=
-  match k with
-  | VStr n => Some n
-  | VSome x | VNewtypeStruct x => key_name x
-  | _ => None
-  end.
+(* KeyLookupSerializer: key_name (Value.v) *)
 
 (* the loops of the container builders, over the function that pushes one value into a child *)
 Section Loops.
